@@ -63,6 +63,13 @@ def check_one(key: bytes, sa: int, ga: int, ti: int, seq: int, n: int, encrypt: 
             return "sender-refused-too-long", []
         return "sender-refused", [(exc_sig("sender-refuses", exc), f"{what}: {exc!r}")]
     rx = Receiver({ga: key}, {sa: seq - 1})
+    if n % 3 == 0:
+        # the receiver has just refused a damaged copy of this very frame (one MAC bit flipped): the genuine frame is still accepted
+        bad = raw[:-1] + bytes((raw[-1] ^ 0x01,))
+        mgmt_calls.clear()
+        got0, _issues0, exc0 = rx.feed(bad)
+        if exc0 is not None or got0 or mgmt_calls:
+            return "damaged-copy", [("damaged-copy-not-refused-quietly", f"{what}: delivered {len(got0)} / raised {exc0!r}")]
     mgmt_calls.clear()
     got, issues, exc = rx.feed(raw)
     if exc is not None:
@@ -110,7 +117,7 @@ def run(ctx: Ctx) -> None:
     ctx.rule = (
         "keys {00..,FF..,00 01..0F,seed} x sender {0.0.1,1.1.1,15.15.255} x group {0/0/1,1/1/1,31/7/255} x {T_Data_Group,T_Data_Tag_Group} x sequence {1,2^32-1,2^48-2,seed} x "
         f"GroupValueWrite APDU of {'every length 1..242' if ctx.thorough else 'lengths 1..20,239..242'} x {{A+C by DataSecure.outgoing_cemi of a second instance, authentication-only by "
-        "SecureData.init_from_plain_apdu}; the frame goes through the real CEMIHandler.handle_raw_cemi of a receiver with the same key: exactly one delivery, payload equal, data_secure set"
+        "SecureData.init_from_plain_apdu}; the frame goes through the real CEMIHandler.handle_raw_cemi of a receiver with the same key (for every third length right after a damaged copy of it was refused): exactly one delivery, payload equal, data_secure set"
     )
     ctx.pmap(worker, [(k, s, ctx.seed, ctx.thorough) for k in range(4) for s in range(4)])
 
